@@ -287,6 +287,11 @@ impl<T: ?Sized> RwLock<T> {
                 _ => (),
             };
             drop(state);
+
+            // A refused re-entrant read attempt must leave the lock unchanged: give the permit back.
+            if !acquired {
+                self.semaphore.release(typ.num_permits());
+            }
         }
 
         trace!(
